@@ -281,7 +281,8 @@ def gen_case(rng, tier, index):
         else:
             fm = float(m)
             v = rng.choice([fm + 0.01, math.nextafter(fm, math.inf), 2 * fm, rng.uniform(fm, 5 * fm) + 0.01,
-                            round(rng.uniform(fm, 3 * fm), 2) + 0.01, fm, fm * 0.5, rng.uniform(0, fm), fm + 1e-6])
+                            round(rng.uniform(fm, 3 * fm), 2) + 0.01, fm, fm * 0.5, rng.uniform(0, fm), fm + 1e-6,
+                            rng.choice([7158279.0, 8e6, 5e7])])  # far above the step limit AND above what one record can carry
         if auto and rng.random() < 0.15:
             # several wells of ONE column in one call, needing different numbers of partitions
             n = rng.randint(2, 6)
